@@ -25,10 +25,20 @@ pub fn rewrite_equal(t: &TD, rng: &mut Rng) -> TD {
         Shape::SetN => {
             rng.shuffle(&mut kids);
             if rng.chance(1, 3) && !kids.is_empty() {
-                // a duplicate that is itself rewritten (semantically equal, structurally different)
-                let d = rewrite_equal(&kids[rng.below(kids.len())].clone(), rng);
-                let pos = rng.below(kids.len() + 1);
-                kids.insert(pos, d);
+                // duplicates that are themselves rewritten (semantically equal, structurally different);
+                // sometimes many of them, so that batch insertion crosses the hash set's capacity steps
+                // (only small members are duplicated many times, and then as plain copies, so that
+                // nested sets do not multiply)
+                let many = if rng.chance(1, 4) { rng.range(2, 14) } else { 1 };
+                for _ in 0..many {
+                    let src = kids[rng.below(kids.len())].clone();
+                    if many > 1 && src.size() > 6 {
+                        continue;
+                    }
+                    let d = if many == 1 && src.size() <= 40 { rewrite_equal(&src, rng) } else { src };
+                    let pos = rng.below(kids.len() + 1);
+                    kids.insert(pos, d);
+                }
             }
         }
         Shape::BinSym => {
@@ -376,7 +386,6 @@ pub fn run(ctx: &mut Ctx, hash: bool) {
     let names = common_safe_names();
     let g = Gen { names: &names, max_depth: 6, max_arity: 4, placeholders: true, set_bias: true };
     let mut rng = ctx.rng(if hash { 0xC07 } else { 0xC06 });
-    let hows = [How::Ctor, How::Mixed, How::ParseAscii, How::ParseHan, How::ParseLatex, How::Thread, How::Clone];
     let reps = if ctx.thorough { 6 } else { 8 };
     let n = if hash { ctx.share(250_000, 8_000_000) } else { ctx.share(250_000, 10_000_000) };
 
@@ -450,13 +459,75 @@ pub fn run(ctx: &mut Ctx, hash: bool) {
         }
     }
 
+    // (0c) atoms that share a name / number text across kinds, in one unordered group:
+    // Word("12") next to Interval(12), "_" next to Word(""), the five named kinds with one name
+    {
+        let keys = ["12", "0", "7", "x", "", "_", "18446744073709551615"];
+        for (gi, group_kind) in SET_KINDS.iter().chain(BINSYM_KINDS.iter()).enumerate() {
+            for (ki, key) in keys.iter().enumerate() {
+                idx += 1;
+                if !ctx.mine(idx) {
+                    continue;
+                }
+                let mut atoms: Vec<TD> = NAMED_ATOM_KINDS.iter().map(|k| TD::atom(*k, key)).collect();
+                if let Ok(n) = key.parse::<usize>() {
+                    atoms.push(TD::interval(n));
+                }
+                atoms.push(TD::placeholder());
+                // operands of the same shape that differ only in the kind of an inner same-named atom
+                for wrap in [Kind::SetExt, Kind::Product, Kind::Neg, Kind::SetInt] {
+                    for x in 0..atoms.len() {
+                        for y in 0..atoms.len() {
+                            if x == y || group_kind.shape() != Shape::BinSym {
+                                continue;
+                            }
+                            let wa = TD::comp(wrap, vec![atoms[x].clone()]);
+                            let wb = TD::comp(wrap, vec![atoms[y].clone()]);
+                            let da = TD::bin(*group_kind, wa.clone(), wb.clone());
+                            let db = TD::bin(*group_kind, wb, wa);
+                            ctx.report.eval();
+                            ctx.report.bump("family.same-key-atoms");
+                            ctx.report.nontrivial(&format!("{}≟{}", da.canon(), db.canon()));
+                            if let Some(w) = pair_failure(&da, &db, How::Ctor, How::Ctor, hash, 3, &mut rng) {
+                                report_failure(ctx, &da, &db, How::Ctor, How::Ctor, hash, w, "same-key-atoms", &mut rng);
+                            }
+                        }
+                    }
+                }
+                // all pairs for symmetric statements, the whole group and sub-groups for sets
+                for x in 0..atoms.len() {
+                    for y in 0..atoms.len() {
+                        if x == y {
+                            continue;
+                        }
+                        let (da, db) = if group_kind.shape() == Shape::BinSym {
+                            (TD::bin(*group_kind, atoms[x].clone(), atoms[y].clone()), TD::bin(*group_kind, atoms[y].clone(), atoms[x].clone()))
+                        } else {
+                            let mut rest: Vec<TD> = atoms.iter().enumerate().filter(|(i, _)| *i != x && (*i + ki + gi) % 3 != 0).map(|(_, a)| a.clone()).collect();
+                            let a = { let mut v = vec![atoms[x].clone(), atoms[y].clone()]; v.extend(rest.clone()); TD::comp(*group_kind, v) };
+                            rest.reverse();
+                            let b = { let mut v = rest; v.push(atoms[y].clone()); v.push(atoms[x].clone()); TD::comp(*group_kind, v) };
+                            (a, b)
+                        };
+                        ctx.report.eval();
+                        ctx.report.bump("family.same-key-atoms");
+                        ctx.report.nontrivial(&format!("{}≟{}", da.canon(), db.canon()));
+                        if let Some(w) = pair_failure(&da, &db, How::Ctor, How::Ctor, hash, 6, &mut rng) {
+                            report_failure(ctx, &da, &db, How::Ctor, How::Ctor, hash, w, "same-key-atoms", &mut rng);
+                        }
+                    }
+                }
+            }
+        }
+    }
+
     for i in 0..n {
         if ctx.out_of_time() {
             ctx.report.inconclusive.push(format!("random pair workload cut at {} of {} by the time budget", i, n));
             break;
         }
         let depth = 2 + rng.below(4);
-        let da = g.term(&mut rng, depth, false);
+        let da = g.term_x(&mut rng, depth);
         let family = match i % 4 {
             0 | 1 => "equal-by-construction",
             2 => "near-miss",
@@ -481,8 +552,18 @@ pub fn run(ctx: &mut Ctx, hash: bool) {
         if hash && da.canon() != db.canon() {
             continue;
         }
-        let how_a = *rng.pick(&hows[..6]);
-        let how_b = *rng.pick(&hows);
+        // constructions on another thread are kept rare in the random family (a spawn + join per
+        // build is slow on a loaded machine); the small-scope and large-arity families use them always
+        let pick_how = |rng: &mut Rng, with_clone: bool| -> How {
+            if rng.chance(1, 40) {
+                How::Thread
+            } else {
+                let pool = [How::Ctor, How::Mixed, How::ParseAscii, How::ParseHan, How::ParseLatex, How::Clone];
+                *rng.pick(&pool[..if with_clone { 6 } else { 5 }])
+            }
+        };
+        let how_a = pick_how(&mut rng, false);
+        let how_b = pick_how(&mut rng, true);
         let how_b = if how_b == How::Clone && da != db { How::Ctor } else { how_b };
         ctx.report.eval();
         ctx.report.bump(&format!("family.{}", family));
@@ -495,7 +576,8 @@ pub fn run(ctx: &mut Ctx, hash: bool) {
             ctx.report.bump("nested-unordered pairs");
         }
         ctx.report.sample(|| J::obj().set("a", da.canon()).set("b", db.canon()).set("expected_equal", equal).set("family", family));
-        let r = if equal { reps } else { 2 };
+        // large values are rebuilt fewer times (each rebuild is a new history anyway)
+        let r = if !equal { 2 } else if da.size() > 40 { 2 } else { reps };
         if let Some(w) = pair_failure(&da, &db, how_a, how_b, hash, r, &mut rng) {
             report_failure(ctx, &da, &db, how_a, how_b, hash, w, family, &mut rng);
         }
